@@ -54,6 +54,33 @@ PROPS = {
     "C16": _hist(2500, 50000, "tracked Solver/SolverComposite/SolverHybrid driven to UNSAT through many add orders, "
                  "unsat_core() at random points: element types, membership in the tracked set, unsatisfiability of the "
                  "core (each element evaluated on all assignments)", design_ref="DESIGN.md 5 C16"),
+    "C17": _hist(500, 15000, "fault enumeration: after a seeded fault-free prefix, the target operation is executed once per "
+                 "(solver-check position, fault kind, early/late) with exactly that fault injected through the "
+                 "z3.Solver.check seam - every check position of the operation - and the history continues fault-free on "
+                 "the same solver and on branches taken before and after the fault; the faulted op must raise a claripy "
+                 "error, every later answer is checked exactly; a second phase injects random multi-fault plans across "
+                 "whole histories; non-trivial = at least one injected fault actually fired",
+                 design_ref="DESIGN.md 5 C17", level="fault_enumeration",
+                 phases=[{"profile": "C17", "share": 0.75}, {"profile": "C17multi", "share": 0.25}]),
+    "C18": _hist(2500, 60000, "histories on every frontend class with restarts as the crash model: in-process pickle round "
+                 "trips that replace the solver or create a twin driven alongside it, expression round trips "
+                 "(loads(dumps(e)) is e), and fresh-interpreter restarts (only the pickles survive; new process, other "
+                 "PYTHONHASHSEED) after which the history continues against the same reference",
+                 design_ref="DESIGN.md 5 C18",
+                 phases=[{"profile": "C18", "share": 0.9}, {"profile": "C18fresh", "share": 0.1}]),
+    "C26": {"engine": "values", "quick": 2000, "thorough": 60000, "limit_s": 90,
+            "rule": "one case = one seeded history 'pin -> query -> query other expressions over the same variables' on "
+                    "Solver / SolverComposite / SolverCacheless / SolverStrings over wide bit-vectors (1..130 bits), "
+                    "floats (boundary values of both sorts) and strings (NUL, backslash, escape look-alikes, non-BMP); "
+                    "every returned value is re-asserted with the user's constraints in an independent Z3 context; "
+                    "distinct = distinct digest of the executed (op, answer) trace; non-trivial = at least two returned "
+                    "values were checked",
+            "level_text": "seeded exploration of value-extraction histories in which a value is first produced from a Z3 "
+                          "model and later re-produced from claripy's model cache by its concrete backend; oracle: an "
+                          "independent Z3 query per returned value (bit identity for floats, exact code points for strings)",
+            "level_note": "trusted: Z3 (reference context) and the two 150-line spec builders; samples the pure extraction "
+                          "function only at the boundary constants of its alphabet; reference 'unknown' = no verdict",
+            "design_ref": "DESIGN.md 5 C26"},
 }
 for _p in PROPS.values():
     _p.setdefault("design_ref", "DESIGN.md 5")
@@ -272,7 +299,8 @@ def write_evidence(prop, tier, seed, level, agg, wall, extra_cov=None, violation
     os.makedirs(os.path.join(VERIF, "evidence"), exist_ok=True)
     runs = agg["runs"]
     cov = {
-        "evaluations": runs,
+        "evaluations": runs + int(agg["stats"].get("fault_variants", 0)) + int(agg["stats"].get("restarts", 0)),
+        "simulated_runs": runs,
         "distinct_nontrivial": len(agg["nontrivial_digests"]),
         "rule": P["rule"],
         "samples": agg["samples"][:4] or [{"note": "no sample kept"}],
